@@ -1325,6 +1325,9 @@ def rule_guard_count(ctx):
 
 
 # ------------------------------------------------------------------------------------------
+LEAKS = ("std::mem::forget", "std::mem::ManuallyDrop::new")
+
+
 def _seq(p, names):
     """indices of the first occurrences, in order, of calls to the given targets; None if not in order"""
     idx = []
@@ -1333,7 +1336,8 @@ def _seq(p, names):
         found = None
         for i in range(start, len(p.events)):
             e = p.events[i]
-            if e.kind == "call" and (e.target == nm or e.ntarget == nm):
+            alts = nm if isinstance(nm, tuple) else (nm,)
+            if e.kind == "call" and (e.target in alts or e.ntarget in alts):
                 found = i
                 break
         if found is None:
@@ -1354,11 +1358,14 @@ def rule_reactivate(ctx):
     for p in ctx.ex.paths(b):
         if p.exit[0] != "return":
             continue
-        s = _seq(p, [ACQ, UNPIN, PIN, "std::mem::forget", REL])
+        # (the guard of the re-pin is leaked: `forget(pin())`, or wrapped in a ManuallyDrop that nothing ever drops)
+        s = _seq(p, [ACQ, UNPIN, PIN, LEAKS, REL])
         ok = s is not None
         if ok:
             f = p.events[s[3]]
-            ok = strip(f.args[0]) == p.events[s[2]].result
+            ok = strip(f.args[0]) == p.events[s[2]].result and not any(
+                e.kind == "call" and (e.ntarget or "") in ("std::mem::ManuallyDrop::drop", "std::mem::ManuallyDrop::into_inner",
+                                                           "std::mem::ManuallyDrop::take") for e in p.events[s[3]:])
             for nm in (ACQ, UNPIN, PIN, REL):
                 ok = ok and len([e for e in p.events if e.kind == "call" and e.target == nm]) == 1
         r.instance("repin: acquire_handle < unpin < forget(pin()) < release_handle", ok)
@@ -1383,7 +1390,7 @@ def rule_reactivate(ctx):
         if ok:
             after = p.events[sg[0]:]
             pins = [i for i, e in enumerate(after) if e.kind == "call" and e.target == PIN]
-            fg = [i for i, e in enumerate(after) if e.kind == "call" and e.ntarget == "std::mem::forget"]
+            fg = [i for i, e in enumerate(after) if e.kind == "call" and e.ntarget in LEAKS]
             rel = [i for i, e in enumerate(after) if e.kind == "call" and e.target == REL]
             ok = len(pins) == 1 and len(fg) == 1 and len(rel) == 1 and pins[0] < fg[0] < rel[0] and \
                 strip(after[fg[0]].args[0]) == after[pins[0]].result
@@ -1658,9 +1665,11 @@ def rule_no_forget(ctx):
         raise AnalysisError("EBR-NO-FORGET: positive control failed (%d forget/ManuallyDrop::new sites seen)" % control)
     # finalize reads the collector back and drops it
     fb = prog.body(FINALIZE)
-    rd = any(norm(c.target or "") == "std::ptr::read" for (_, _, c) in fb.calls())
-    dr = any(blk["term"]["k"] == "drop" and "Collector" in blk["term"]["ty"] for blk in fb.blocks if not blk["cleanup"]) or \
-        any(norm(c.target or "") == "std::mem::drop" and "Collector" in c.full for (_, _, c) in fb.calls())
+    # (finalize itself, or the helpers a refactoring split it into - which are read inlined wherever paths are followed)
+    fbs = [fb] + [prog.bodies[h] for h in prog.auto_inline() if FINALIZE in prog.path_roots(h) and prog.bodies[h].kind != "closure"]
+    rd = any(norm(c.target or "") == "std::ptr::read" for x in fbs for (_, _, c) in x.calls())
+    dr = any(blk["term"]["k"] == "drop" and "Collector" in blk["term"]["ty"] for x in fbs for blk in x.blocks if not blk["cleanup"]) or \
+        any(norm(c.target or "") == "std::mem::drop" and "Collector" in c.full for x in fbs for (_, _, c) in x.calls())
     ok = rd and dr
     r.instance("finalize reads the ManuallyDrop<Collector> back and drops it", ok)
     if not ok:
